@@ -647,22 +647,30 @@ impl World {
         }
     }
 
+    /// registers what a finished deletion produced; returns (result class, signature order of the re-signed
+    /// source row violated?)
     fn register_deletion(
         &mut self,
         kv: &HashMap<String, String>,
         res: Result<discret::verif_hooks::database::deletion::DeletionQuery, DbError>,
-    ) -> String {
+    ) -> (String, bool) {
         let c = self.case.as_mut().unwrap();
-        match res {
+        let mut violated = false;
+        let r = match res {
             Err(e) => format!("err:{}", err_class(&e)),
             Ok(q) => {
                 let row = getn(kv, "row").unwrap();
                 if let (Some(n), Some(s)) = (q.updated_nodes.first(), getn(kv, "sig")) {
-                    c.sigs.insert(n._signature.clone(), s);
-                    c.versions
-                        .entry(row)
-                        .or_default()
-                        .push((n.mdate, n._signature.clone(), s));
+                    let vs = c.versions.entry(row).or_default();
+                    for (m, b, s2) in vs.iter() {
+                        if *m == n.mdate && *s2 != s && ((n._signature > *b) != (s > *s2)) {
+                            violated = true;
+                        }
+                    }
+                    if !violated {
+                        c.sigs.insert(n._signature.clone(), s);
+                        vs.push((n.mdate, n._signature.clone(), s));
+                    }
                 }
                 if let Some(d) = getn(kv, "dsig") {
                     // identical content signs identically: the first number given to those bytes stays
@@ -684,7 +692,8 @@ impl World {
                 };
                 what.to_string()
             }
-        }
+        };
+        (r, violated)
     }
 
     async fn write_op(&mut self, kind: &str, kv: &HashMap<String, String>) -> Result<String, String> {
@@ -723,7 +732,33 @@ impl World {
                     return Ok("queued".to_string());
                 }
                 let res = rx.await.map_err(|e| e.to_string())?; // answered after the commit
-                let r = self.register_deletion(kv, res);
+                let (r, violated) = self.register_deletion(kv, res);
+                if violated {
+                    // a reference deletion re-signed the source row at a date another version of it carries: re-sign
+                    // it (same date, same value, other salt) until the signatures compare like the op file's numbers
+                    let row = getn(kv, "row").unwrap();
+                    let id = *self.case.as_ref().unwrap().rows.get(&row).unwrap();
+                    let mut ok = false;
+                    for _ in 0..1000 {
+                        self.stats.inc("sig_order_retries");
+                        let c = self.case.as_mut().unwrap();
+                        c.salt += 1;
+                        let psr = vec![
+                            ("id", discret::verif_hooks::security::uid_encode(&id)),
+                            ("salt", format!("s{}", c.salt)),
+                        ];
+                        let rx = send_mutation(&self.peers[p], "mutate { P: Person { id:$id salt:$salt } }", params(&psr)).await;
+                        let res = rx.await.map_err(|e| e.to_string())?;
+                        let (_, v) = self.register_mutation("upd", kv, res, false);
+                        if !v {
+                            ok = true;
+                            break;
+                        }
+                    }
+                    if !ok {
+                        return Err("cannot-order-signature".to_string());
+                    }
+                }
                 self.stats.inc(&format!("res.{}.{}", kind, r));
                 return Ok(r);
             } else {
@@ -742,6 +777,25 @@ impl World {
                 }
                 let res = rx.await.map_err(|e| e.to_string())?; // answered after the commit
                 let (r, violated) = self.register_mutation(if tries == 0 { kind } else { retry_kind }, kv, res, kind == "new" || kind == "upd");
+                if violated && kind == "ref" && tries < 1000 {
+                    // the reference is in place; re-sign the source row (same date, same value, other salt) until
+                    // its signature compares like the number of the op file
+                    tries += 1;
+                    self.stats.inc("sig_order_retries");
+                    if tries == 1 {
+                        let c = self.case.as_mut().unwrap();
+                        let row = getn(kv, "row").unwrap();
+                        let id = *c.rows.get(&row).unwrap();
+                        c.salt += 1;
+                        text = "mutate { P: Person { id:$id salt:$salt } }".to_string();
+                        ps = vec![
+                            ("id".to_string(), discret::verif_hooks::security::uid_encode(&id)),
+                            ("salt".to_string(), format!("s{}", c.salt)),
+                        ];
+                        retry_kind = "upd";
+                    }
+                    continue;
+                }
                 if violated && (kind == "upd" || kind == "new") && tries < 1000 {
                     tries += 1;
                     self.stats.inc("sig_order_retries");
@@ -785,7 +839,7 @@ impl World {
                 }
             } else if let Some(rx) = pe.deletion.take() {
                 match rx.await {
-                    Ok(res) => rs.push(self.register_deletion(&pe.kv, res)),
+                    Ok(res) => rs.push(self.register_deletion(&pe.kv, res).0),
                     Err(_) => rs.push("err:lost".to_string()),
                 }
             } else if pe.computed {
